@@ -50,6 +50,8 @@ type MemSession struct {
 	Local   net.Addr
 	// Multicast log
 	Mcast [][]byte
+	// Dropped counts datagrams dropped because Out was full
+	Dropped atomic.Int64
 }
 
 func NewMemSession() *MemSession {
@@ -105,9 +107,11 @@ func (s *MemSession) WriteMessage(req *pool.Message) error {
 	s.cond.Broadcast()
 	s.mu.Unlock()
 	if s.Out != nil {
+		// like a datagram socket: never blocks, drops when the buffer is full
 		select {
 		case s.Out <- cp:
-		case <-s.Context().Done():
+		default:
+			s.Dropped.Add(1)
 		}
 	}
 	return nil
